@@ -7,12 +7,14 @@ LEVEL_TEXT = ("Proved on the real code with symbolic nodes whose annotation sets
               "annotation is eliminated, and every relocatable annotation of an argument is on the result); the constructor wrapper operations.op._op "
               "composed with it (rewriters by contract); every rewriter that reports annotated=True (bypassing the handler) keeps the clauses itself; "
               "algorithm.simplify re-attaches the top annotations and the direct arguments' relocatable ones; ConstrainedFrontend.simplify leaves "
-              "constraints carrying a SimplificationAvoidanceAnnotation untouched.  The If() shortcuts are a listed known finding.")
+              "constraints carrying a SimplificationAvoidanceAnnotation untouched; Base.__new__ / Base.make_like accumulate the protected annotations of sub-expressions "
+              "and the relocatable ones of the arguments for every keyword combination (so _handle_annotations sees what a sub-expression carries even "
+              "after the top-level annotations were edited).  The If() shortcuts are a listed known finding.")
 TECHNIQUE = "pyvc symbolic execution of the real annotation-handling code over an annotation universe; set-inclusion obligations"
 A = "vf.contracts.annos"
-FUNCTIONS = ["operations._handle_annotations", "operations.op._op", "algorithm.simplify.simplify", "ConstrainedFrontend.simplify",
+FUNCTIONS = ["Base.__new__ (annotation accumulation)", "Base.make_like (annotation edits)", "operations._handle_annotations", "operations.op._op", "algorithm.simplify.simplify", "ConstrainedFrontend.simplify",
              "simplifications.extract_simplifier (annotated flag)", "simplifications.concat_simplifier", "simplifications._flatten_simplifier users"]
-TRUSTED = ["z3", "contract of Base.__new__: a node carries the relocatable annotations of its children (checked only bounded)",
+TRUSTED = ["z3",
            "contract of any_backend.simplify: an equivalent expression with arbitrary annotations"]
 ASSUMPTIONS = ["annotation universe: one eliminatable, one non-eliminatable non-relocatable, two relocatable annotations (the code treats annotations uniformly)",
                "Annotation.relocate returns the annotation itself (base class behaviour)"]
@@ -25,6 +27,9 @@ def tasks(tier, seed=0):
            task(A, "ob_op_wrapper", "annos.op._op/meaning+clauses", ["C07", "C01"], tier=tier),
            task(A, "ob_algo_simplify", "annos.algorithm.simplify/meaning+clauses", ["C07", "C09"], tier=tier),
            task("vf.contracts.frontend", "ob_simplify", "frontend.ConstrainedFrontend.simplify/models-unchanged", ["C09", "C07"], tier=tier)]
+    B = "vf.contracts.basenew"
+    out += [task(B, "ob_base_new", "basenew.Base.__new__/metadata", ["C05", "C07"], tier=tier),
+            task(B, "ob_make_like", "basenew.Base.make_like/metadata", ["C05", "C07"], tier=tier)]
     for rw, op, ar in RW:
         out.append(task("vf.contracts.simp", "ob_rewriter", f"simp.{rw}[{op}/{ar},annotated]/clauses@w8", ["C07"], rw=rw, op=op, w=8, arity=ar,
                         tier=tier, annotated=True))
